@@ -121,6 +121,8 @@ impl Gitignore {
     pub uninterp spec fn root(&self) -> PathKey;
     pub uninterp spec fn files(&self) -> Seq<PathKey>;
     #[verifier::external_body]
+    pub fn path(&self) -> (r: &Path) ensures r.key() == self.root() { unimplemented!() }
+    #[verifier::external_body]
     pub fn matched<P: PathLike>(&self, path: P, is_dir: bool) -> (r: Match) ensures r.ignores() == gi_ignored(*self, path.pkey(), is_dir) { unimplemented!() }
     #[verifier::external_body]
     pub fn matched_path_or_any_parents<P: PathLike>(&self, path: P, is_dir: bool) -> (r: Match) { unimplemented!() }
